@@ -210,7 +210,7 @@ func (a *Analysis) step(st *State, fr *frame, in ssa.Instruction) {
 	case *ssa.FieldAddr:
 		xe := a.exprOf(st, fr, x.X)
 		fld := x.X.Type().Underlying().(*types.Pointer).Elem().Underlying().(*types.Struct).Field(x.Field)
-		a.bind(st, fr, x, mkFieldAddr(xe, fld.Name(), x.Field, x.Type()))
+		a.bind(st, fr, x, mkFieldAddr(xe, fld.Name(), x.Field, x.Type(), structNameOfPtr(x.X.Type())))
 	case *ssa.Index:
 		xe, ie := a.exprOf(st, fr, x.X), a.exprOf(st, fr, x.Index)
 		a.bind(st, fr, x, mkAt(xe, ie, x.Type()))
@@ -299,6 +299,25 @@ func (a *Analysis) step(st *State, fr *frame, in ssa.Instruction) {
 	case *ssa.Store:
 		addr, val := a.exprOf(st, fr, x.Addr), a.exprOf(st, fr, x.Val)
 		st.store(addr, val, siteTok(fr, x))
+		if addr.Op == "fa" {
+			nn := false
+			if c, ok := st.nonNil(val).IsConst(); ok && c == 1 {
+				nn = true
+			}
+			switch val.Op {
+			case "makechan", "closure", "fn":
+				nn = true
+			case "ex":
+				if strings.Contains(val.Key, "context.WithCancel") {
+					nn = true
+				}
+			}
+			if nn {
+				st.event("assign:" + addr.S)
+			} else {
+				delete(st.must, "assign:"+addr.S)
+			}
+		}
 		// a stored pointer/slice to a fresh alloc escapes into memory, but we
 		// keep tracking it: local allocs stored into locals are common.
 	case *ssa.MapUpdate:
